@@ -479,7 +479,8 @@ theorem processBinCols_encodeBinVals (types : List Nat) (f : Nat → Bytes → B
           have hk := hv.1 k hw
           subst hk
           simp only []
-          rw [encodeBinVal_fixed t _ v hw, ← List.append_assoc, goSlice_append_mid]
+          rw [encodeBinVal_fixed t _ v hw, ← List.append_assoc,
+            if_neg (by simp only [List.length_append]; omega), goSlice_append_mid]
           simp only [Out.bind_ok, Out.pure_eq]
           rw [show pre.length + v.length = (pre ++ v).length by simp,
             ih r (i+1) (pre ++ v) _ hdrop' hlen' hbm' hT' hV']
@@ -487,7 +488,8 @@ theorem processBinCols_encodeBinVals (types : List Nat) (f : Nat → Bytes → B
         | lenenc =>
           have hk := hv.2 hw
           simp only []
-          rw [encodeBinVal_lenenc t v hw, goSliceFrom_append]
+          rw [encodeBinVal_lenenc t v hw, if_neg (by simp only [List.length_append]; omega),
+            goSliceFrom_append]
           simp only [Out.bind_ok, Out.pure_eq,
             lenenc_str_roundtrip (some v) _ (by intro b hb; cases hb; exact hk), Option.getD_some]
           rw [← List.append_assoc,
@@ -535,6 +537,10 @@ theorem binRow_encodeBinRow (types : List Nat) (f : Nat → Bytes → Bytes) (r 
     exact goSlice_prefix ([0] ++ nullBitmap r) (encodeBinVals types r)
   unfold binRow
   rw [hrow]
+  have hguard : ¬ (([0] ++ nullBitmap r ++ encodeBinVals types r).length = 0 ∨
+      ([0] ++ nullBitmap r ++ encodeBinVals types r).length < 1 + ((types.length + 7 + 2) >>> 3)) := by
+    rw [hpos]; simp only [List.length_append, List.length_cons, List.length_nil]; omega
+  rw [if_neg hguard]
   simp only [hi, hs1, hs0, Out.bind_ok]
   rw [if_neg (by decide), if_neg (by decide), hpos,
     processBinCols_encodeBinVals types f (nullBitmap r) types r 0 _ _ rfl hlen _ hT hV]
@@ -616,5 +622,169 @@ example : decodeBinRow [3, 253, 8] (encodeBinRow [3, 253, 8] [some [1, 2, 3, 4],
     rcases h with ⟨rfl, rfl⟩ | ⟨rfl, rfl⟩
     · exact ⟨(by intro k hk; cases hk; rfl), (by intro hk; cases hk)⟩
     · exact ⟨(by intro k hk; cases hk), (by intro _; decide)⟩)
+
+/-! ## D. no panics, whatever the input -/
+
+theorem goSlice_ok_of_le (b : Bytes) (lo hi : Nat) (h1 : lo ≤ hi) (h2 : hi ≤ b.length) :
+    goSlice b lo hi = .ok ((b.take hi).drop lo) := by
+  unfold goSlice; rw [if_pos ⟨h1, h2⟩]
+
+theorem goSliceFrom_ok_of_le (b : Bytes) (lo : Nat) (h : lo ≤ b.length) :
+    goSliceFrom b lo = .ok (b.drop lo) := by
+  unfold goSliceFrom; rw [if_pos h]
+
+/-- `readPacket` never panics. -/
+theorem readPacket_no_panic (s : Bytes) : readPacket s ≠ .panic := by
+  have key : ∀ n, ∀ s : Bytes, s.length = n → readPacket s ≠ .panic := by
+    intro n
+    induction n using Nat.strongRecOn with
+    | ind n ih =>
+      intro s hs
+      rw [readPacket]
+      by_cases h0 : s.length < headerSize
+      · rw [if_pos h0]; simp
+      · rw [if_neg h0]
+        simp only []
+        by_cases h1 : payloadLength (List.take headerSize s) < 1
+        · rw [if_pos h1]; simp
+        · rw [if_neg h1]
+          by_cases h2 : (List.drop headerSize s).length < payloadLength (List.take headerSize s)
+          · rw [if_pos h2]; simp
+          · rw [if_neg h2]
+            by_cases h3 : payloadLength (List.take headerSize s) < maxPayloadLen
+            · rw [if_pos h3]; simp
+            · rw [if_neg h3]
+              have hlt : (List.drop (payloadLength (List.take headerSize s)) (List.drop headerSize s)).length < n := by
+                simp only [List.length_drop, headerSize_eq] at h0 h2 ⊢
+                omega
+              have := ih _ hlt _ rfl
+              cases hr : readPacket (List.drop (payloadLength (List.take headerSize s)) (List.drop headerSize s)) with
+              | ok x => simp
+              | err => simp
+              | panic => exact absurd hr this
+  exact key _ s rfl
+
+/-- `ReadPacket` never panics. -/
+theorem read_no_panic (s : Bytes) : read s ≠ .panic := by
+  unfold read
+  cases hr : readPacket s with
+  | ok x => simp
+  | err => simp
+  | panic => exact absurd hr (readPacket_no_panic s)
+
+/-- `replaceQuery` never panics (an empty payload is left alone). -/
+theorem replaceQuery_no_panic (p : Packet) (q : Bytes) : replaceQuery p q ≠ .panic := by
+  unfold replaceQuery
+  cases p.data <;> simp
+
+/-- `extractData` never panics: both slices are guarded. -/
+theorem extractData_no_panic (typ : Nat) (row : Bytes) (pos : Nat) : extractData typ row pos ≠ .panic := by
+  unfold extractData
+  cases widthOf typ with
+  | fixed k =>
+    simp only []
+    by_cases h : pos > row.length ∨ k > row.length - pos
+    · rw [if_pos h]; simp
+    · rw [if_neg h, goSlice_ok_of_le _ _ _ (by omega) (by omega)]; simp
+  | lenenc =>
+    simp only []
+    by_cases h : pos > row.length
+    · rw [if_pos h]; simp
+    · rw [if_neg h, goSliceFrom_ok_of_le _ _ (by omega)]
+      simp only [Out.bind_ok]
+      cases hr : lengthEncodedString (List.drop pos row) with
+      | ok x => simp
+      | err => simp
+      | panic => exact absurd hr (lenenc_str_no_panic _)
+  | unknown => simp
+
+/-- the loop of `processTextDataRow` never panics when the subscribers do not, from any position inside the row -/
+theorem processTextRow_no_panic (g : Nat → Bytes → Out Bytes) (hg : ∀ i v, g i v ≠ .panic)
+    (k i : Nat) (row : Bytes) (pos : Nat) (out : Bytes) (hpos : pos ≤ row.length) :
+    processTextRow g k i row pos out ≠ .panic := by
+  induction k generalizing i pos out with
+  | zero => simp [processTextRow]
+  | succ k ih =>
+    rw [processTextRow, goSliceFrom_ok_of_le _ _ hpos]
+    simp only [Out.bind_ok]
+    cases hr : lengthEncodedString (List.drop pos row) with
+    | err => simp
+    | panic => exact absurd hr (lenenc_str_no_panic _)
+    | ok x =>
+      obtain ⟨v, n⟩ := x
+      have hp := lenenc_str_progress _ v n hr
+      have hn : pos + n ≤ row.length := by
+        have := hp.2; rw [List.length_drop] at this; omega
+      simp only [Out.bind_ok]
+      cases v with
+      | none =>
+        simp only []
+        rw [goSlice_ok_of_le _ _ _ (by omega) hn]
+        simp only [Out.bind_ok]
+        exact ih _ _ _ hn
+      | some v =>
+        simp only []
+        cases hgv : g i v with
+        | ok v' => simp only [Out.bind_ok]; exact ih _ _ _ hn
+        | err => simp
+        | panic => exact absurd hgv (hg i v)
+
+/-- `processTextDataRow` never panics when the subscribers do not. -/
+theorem textRow_no_panic (g : Nat → Bytes → Out Bytes) (hg : ∀ i v, g i v ≠ .panic) (n : Nat) (row : Bytes) :
+    textRow g n row ≠ .panic :=
+  processTextRow_no_panic g hg n 0 row 0 [] (Nat.zero_le _)
+
+/-- the column loop of `processBinaryDataRow` never panics when the bitmap covers the remaining columns -/
+theorem processBinCols_no_panic (g : Nat → Bytes → Out Bytes) (hg : ∀ i v, g i v ≠ .panic)
+    (bitmap row : Bytes) (ts : List Nat) (i pos : Nat) (out : Bytes)
+    (hbm : (i + ts.length + 1) / 8 < bitmap.length) :
+    processBinCols g bitmap row ts i pos out ≠ .panic := by
+  induction ts generalizing i pos out with
+  | nil => simp [processBinCols]
+  | cons t ts ih =>
+    have hbm' : (i + 1 + ts.length + 1) / 8 < bitmap.length := by
+      rw [List.length_cons] at hbm
+      rw [show i + 1 + ts.length + 1 = i + (ts.length + 1) + 1 by omega]; exact hbm
+    rw [processBinCols, if_neg (by rw [List.length_cons] at hbm; omega)]
+    split
+    · exact ih _ _ _ hbm'
+    · cases he : extractData t row pos with
+      | err => simp
+      | panic => exact absurd he (extractData_no_panic _ _ _)
+      | ok x =>
+        obtain ⟨v, n⟩ := x
+        simp only [Out.bind_ok]
+        cases hgv : g i v with
+        | ok v' => simp only [Out.bind_ok]; exact ih _ _ _ hbm'
+        | err => simp
+        | panic => exact absurd hgv (hg i v)
+
+/-- `processBinaryDataRow` never panics when the subscribers do not, whatever the row and field list. -/
+theorem binRow_no_panic (g : Nat → Bytes → Out Bytes) (hg : ∀ i v, g i v ≠ .panic)
+    (types : List Nat) (row : Bytes) : binRow g types row ≠ .panic := by
+  unfold binRow
+  by_cases hguard : row.length = 0 ∨ row.length < 1 + ((types.length + 7 + 2) >>> 3)
+  · rw [if_pos hguard]
+    split
+    · simp
+    · cases row.head? with
+      | none => simp
+      | some b0 => simp only []; split <;> simp
+  · rw [if_neg hguard]
+    have hsh : (types.length + 7 + 2) >>> 3 = (types.length + 7 + 2) / 8 := by
+      rw [Nat.shiftRight_eq_div_pow]
+    rw [hsh] at hguard ⊢
+    obtain ⟨x, hx⟩ := goIndex_ne_panic_of_lt row 0 (by omega)
+    rw [hx]
+    simp only [Out.bind_ok]
+    split
+    · simp
+    · split
+      · simp
+      · rw [goSlice_ok_of_le _ _ _ (by omega) (by omega), goSlice_ok_of_le _ _ _ (by omega) (by omega)]
+        simp only [Out.bind_ok]
+        apply processBinCols_no_panic g hg
+        simp only [List.length_drop, List.length_take]
+        omega
 
 end AcraModel.Wire.My
